@@ -25,6 +25,41 @@ type c12World struct {
 	ctx    context.Context
 	ns     tree.NodeStore
 	ks, vs vt.Schema
+	// wide: value schema (int64?, bytes?) whose second field is padded to 300..700 bytes, so
+	// that a leaf holds only about 8 rows and about one row in eight ends a chunk
+	wide            bool
+	padLo, padSpan int // pad sizes are padLo + (s*97)%padSpan
+}
+
+// c12WideSchema is the value schema of the wide-row flavour.
+func c12WideSchema() vt.Schema {
+	return vt.NewSchema([]vt.Kind{vt.KInt64, vt.KBytes}, []bool{true, true})
+}
+
+func c12Pad(size, salt int) []byte {
+	b := make([]byte, size)
+	for i := range b {
+		b[i] = byte('a' + (i*7+salt*13+i/251)%26)
+	}
+	return b
+}
+
+// vstr renders a value row for case descriptions (wide pads as their size).
+func (w *c12World) vstr(v vt.Row) string {
+	if w.wide && len(v) == 2 {
+		if b, ok := v[1].([]byte); ok {
+			return fmt.Sprintf("[%v pad%d]", vt.Row{v[0]}, len(b))
+		}
+	}
+	return v.String()
+}
+
+// genVal draws a value row: the tiny vt universe, or one of 24 wide values of different sizes.
+func (w *c12World) genVal(t *rapid.T, label string) vt.Row {
+	if w.wide {
+		return w.valAt(rapid.IntRange(0, 23).Draw(t, label))
+	}
+	return vt.GenRow(t, label, w.vs, 0, 5)
 }
 
 func c12NewWorld(ks, vs vt.Schema) *c12World {
@@ -52,6 +87,16 @@ func (w *c12World) keyAt(x, y int) vt.Row {
 
 // valAt is a deterministic value row for salt s (tiny universe when s is small).
 func (w *c12World) valAt(s int) vt.Row {
+	if w.wide {
+		if s < 0 {
+			s = -s
+		}
+		lo, span := w.padLo, w.padSpan
+		if lo == 0 {
+			lo, span = 300, 401
+		}
+		return vt.Row{vt.ValAt(vt.KInt64, s%6), c12Pad(lo+(s*97)%span, s%7)}
+	}
 	return vt.SeqRow(w.vs, s, 1)
 }
 
@@ -365,6 +410,8 @@ type c12EditGen struct {
 	hot    [][2]int // hot windows of positions
 	maxRun int
 	ops    []string
+	// pointOnly: boundary ops only overwrite the value of the chosen key (no delete / insert)
+	pointOnly bool
 }
 
 func (g *c12EditGen) note(format string, a ...any) { g.ops = append(g.ops, fmt.Sprintf(format, a...)) }
@@ -421,20 +468,20 @@ func (g *c12EditGen) one(t *rapid.T, label string, d *vt.Dict, bounds []int, wei
 	switch op {
 	case 0: // put a hot key (new or overwrite)
 		k := g.hotKey(t, label)
-		v := vt.GenRow(t, label+".v", w.vs, 0, 5)
+		v := w.genVal(t, label+".v")
 		put(k, v)
-		g.note("put %v=%v", k, v)
+		g.note("put %v=%v", k, w.vstr(v))
 	case 1: // put anywhere (vt generator: includes extreme values)
 		k := vt.GenRow(t, label+".k", w.ks, 0, g.fullHi)
-		v := vt.GenRow(t, label+".v", w.vs, 0, 5)
+		v := w.genVal(t, label+".v")
 		put(k, v)
-		g.note("put %v=%v", k, v)
+		g.note("put %v=%v", k, w.vstr(v))
 	case 2: // overwrite an existing key
 		if i, ok := existing(label); ok {
 			k := d.E[i].K
-			v := vt.GenRow(t, label+".v", w.vs, 0, 5)
+			v := w.genVal(t, label+".v")
 			put(k, v)
-			g.note("set #%d %v=%v", i, k, v)
+			g.note("set #%d %v=%v", i, k, w.vstr(v))
 		}
 	case 3: // delete an existing key
 		if i, ok := existing(label); ok {
@@ -482,14 +529,18 @@ func (g *c12EditGen) one(t *rapid.T, label string, d *vt.Dict, bounds []int, wei
 				i = d.Len() - 1
 			}
 			k := d.E[i].K
-			switch rapid.IntRange(0, 3).Draw(t, label+".bact") {
+			bact := 1
+			if !g.pointOnly {
+				bact = rapid.IntRange(0, 3).Draw(t, label+".bact")
+			}
+			switch bact {
 			case 0:
 				del(k)
 				g.note("bdel #%d(%+d) %v", o, off, k)
 			case 1:
-				v := vt.GenRow(t, label+".v", w.vs, 0, 5)
+				v := w.genVal(t, label+".v")
 				put(k, v)
-				g.note("bset #%d(%+d) %v=%v", o, off, k, v)
+				g.note("bset #%d(%+d) %v=%v", o, off, k, w.vstr(v))
 			default:
 				// a new key right next to it in position space
 				nk := k
@@ -503,9 +554,9 @@ func (g *c12EditGen) one(t *rapid.T, label string, d *vt.Dict, bounds []int, wei
 						nk = w.keyAt(p+dx, y)
 					}
 				}
-				v := vt.GenRow(t, label+".v", w.vs, 0, 5)
+				v := w.genVal(t, label+".v")
 				put(nk, v)
-				g.note("bins #%d(%+d) %v=%v", o, off, nk, v)
+				g.note("bins #%d(%+d) %v=%v", o, off, nk, w.vstr(v))
 			}
 		}
 	}
